@@ -182,7 +182,13 @@ while i < len(lines):
         decls[m.group(2).strip('"')] = ln; i += 1; continue
     if ln.startswith('define '):
         body = []; hdr = ln; i += 1
-        while lines[i] != '}': body.append(lines[i]); i += 1
+        while lines[i] != '}':
+            cur = lines[i]; i += 1
+            # a switch with cases is printed over several lines: join them into one instruction
+            if re.match(r'\s*switch\s', cur) and cur.rstrip().endswith('['):
+                while lines[i].strip() != ']': cur += ' ' + lines[i].strip(); i += 1
+                cur += ' ]'; i += 1
+            body.append(cur)
         funcs.append((hdr, body)); i += 1; continue
     i += 1
 
